@@ -600,3 +600,21 @@ def rt_index_picks(e, acc=None):
         if isinstance(x, (list, tuple)):
             rt_index_picks(x, acc)
     return acc
+
+
+def slice_chains(e, acc=None):
+    """outermost slice-of-slice nodes (constant bounds, BitVector typed)"""
+    acc = [] if acc is None else acc
+    if not (isinstance(e, list) and e and isinstance(e[0], str)):
+        if isinstance(e, (list, tuple)):
+            for x in e:
+                if isinstance(x, (list, tuple)):
+                    slice_chains(x, acc)
+        return acc
+    if e[0] == "slice" and isinstance(e[2], list) and e[2] and e[2][0] == "slice":
+        acc.append(e)
+        return acc
+    for x in e[1:]:
+        if isinstance(x, (list, tuple)):
+            slice_chains(x, acc)
+    return acc
